@@ -24,13 +24,39 @@ Definition body_line_ok (keys : list string) (l : uline) : bool :=
   && negb (isspace (render_line l))
   && load_inert (render_line l) && expand_inert (render_line l).
 
-Definition text_ok (l : string) : bool := no_lg l.
+Definition text_ok (l : string) : bool := no_char (chr 60) l && no_char LF l.     (* no '<', one line *)
+
+(* the expander stage of a block kind: its begin / end tags *)
+Definition stage_tags (k : ekind) : string * string :=
+  match k with
+  | KState => (stag "__TAG_PS_BEGIN__", stag "__TAG_PS_END__") | KEvent => (stag "__TAG_PE_BEGIN__", stag "__TAG_PE_END__")
+  | KAction => (stag "__TAG_PA_BEGIN__", stag "__TAG_PA_END__") | KGuard => (stag "__TAG_PG_BEGIN__", stag "__TAG_PG_END__")
+  | KStruct => (stag "__TAG_STRUCT_BEGIN__", stag "__TAG_STRUCT_END__") | KProto => (stag "__TAG_PROTOMSG_BEGIN__", stag "__TAG_PROTOMSG_END__")
+  | KMsg => (stag "__TAG_MSG_BEGIN__", stag "__TAG_MSG_END__")
+  end.
+Definition sig_tags : string * string := (stag "__TAG_PASIG_BEGIN__", stag "__TAG_PASIG_END__").
+Definition all_stages : list stage := second_stages ++ second_stages_iface.
+Definition own_stage (st : stage) (tags : string * string) : bool :=
+  let '(kind, b, e, _, _) := st in String.eqb kind "Pair" && String.eqb (fst tags) b.
+
+(* the begin / end line of a block: recognised by its own stage as begin resp. end (and not the other way round, no
+   parameter), inert for every other stage, untouched by the first filtering *)
+Definition block_lines_ok (tags : string * string) (bl el : string) : bool :=
+  hasSpecificTag bl (fst tags) && negb (hasSpecificTag bl (snd tags)) && negb (hasDefault bl)
+  && negb (hasSpecificTag el (fst tags)) && hasSpecificTag el (snd tags)
+  && forallb (fun st => own_stage st tags || (stage_inert bl st && stage_inert el st)) all_stages
+  && load_inert bl && load_inert el.
 
 Definition item16_ok (it : item16) : bool :=
   match it with
   | Text l => text_ok l
-  | Block k body => forallb (body_line_ok (keys_of k)) body
-  | SigBlock body => forallb (body_line_ok sig_keys) body
+  | Raw s => no_char (chr 60) s && (count_char LF s <=? 1)%nat
+  | Block k ib ie body =>
+      block_lines_ok (stage_tags k) (ib ++ begin_line (block_word k))%string (ie ++ end_line (block_word k))%string
+      && forallb (body_line_ok (keys_of k)) body
+  | SigBlock ib ie body =>
+      block_lines_ok sig_tags (ib ++ begin_line "PER_ACTION_SIGNATURE")%string (ie ++ end_line "PER_ACTION_SIGNATURE")%string
+      && forallb (body_line_ok sig_keys) body
   end.
 
 Definition in_grammar16 (t : template16) : bool :=
@@ -49,8 +75,9 @@ Definition block_wf {A} (tb : A -> nat -> list (string * string)) (items : list 
 Definition item16_wf (e : elements) (it : item16) : bool :=
   match it with
   | Text _ => true
-  | Block k body => block_wf (table_of_kind k) (items_of e k) body
-  | SigBlock body => block_wf sig_table (el_sigs e) body
+  | Raw _ => true
+  | Block k _ _ body => block_wf (table_of_kind k) (items_of e k) body
+  | SigBlock _ _ body => block_wf sig_table (el_sigs e) body
   end.
 
 Definition wf_elements16 (t : template16) (e : elements) : bool := forallb (item16_wf e) t.
